@@ -523,12 +523,19 @@ func checkC04(sc *Scenario, st *Stats) *Violation {
 	}
 	// oracle 3 (metamorphic): succeeding aspects everywhere == join points off
 	jpoff := false
-	off := RunArtela(base, ArtelaOpts{JPOverride: &jpoff})
+	off := RunArtela(base, ArtelaOpts{JPOverride: &jpoff, Debug: len(sc.Bindings) > 0})
 	if len(sc.Bindings) > 0 {
 		bound := base.Clone()
 		bound.Bindings = sc.Bindings
 		br := RunArtela(bound, ArtelaOpts{Debug: true})
-		sameFlow := flowOf(br.Rec.Evs) == flowOf(disc.Rec.Evs)
+		// Aspect executions cost gas, so the relation only holds where gas is not data:
+		// same control flow, and no value that differs between the two runs (i.e. that
+		// derives from the GAS instruction) reaches anything but the gas argument of a call
+		sameFlow := flowOf(br.Rec.Evs) == flowOf(disc.Rec.Evs) && flowOf(br.Rec.Evs) == flowOf(off.Rec.Evs)
+		if sameFlow && gasReachesData(sc.Fork, br.Rec.Evs, off.Rec.Evs) {
+			sameFlow = false
+			st.Label("metamorphic-aspects-skipped(gas-is-data)")
+		}
 		if sameFlow {
 			for i := range br.Obs {
 				a, b := br.Obs[i], off.Obs[i]
@@ -605,6 +612,53 @@ func checkC04(sc *Scenario, st *Stats) *Violation {
 	st.LabelN("firing-positions", nLook)
 	st.Case(sc.JSON(), nontrivial, sc, labels...)
 	return nil
+}
+
+// gasReachesData compares two runs with equal control flow step by step: a stack
+// value that differs between them is gas-derived; it may be moved and combined
+// (DUP/SWAP/POP/arithmetic/comparison/jump condition - the flow is known to be
+// equal) and be the gas argument of a call, but as soon as it is an operand of
+// anything else (stores, memory, logs, return data, call value/address/windows,
+// create, hashing) the world states may legitimately differ.
+func gasReachesData(fork string, a, b []Ev) bool {
+	tab := OpTableFor(fork, nil)
+	var sa, sb []*Ev
+	for i := range a {
+		if a[i].K == EvStep {
+			sa = append(sa, &a[i])
+		}
+	}
+	for i := range b {
+		if b[i].K == EvStep {
+			sb = append(sb, &b[i])
+		}
+	}
+	if len(sa) != len(sb) {
+		return true
+	}
+	for i := range sa {
+		x, y := sa[i], sb[i]
+		if len(x.Stack) != len(y.Stack) {
+			return true
+		}
+		op := x.Op
+		pops := tab[op].Pops
+		n := len(x.Stack)
+		for k := 0; k < pops && k < n; k++ {
+			if x.Stack[n-1-k].Eq(&y.Stack[n-1-k]) {
+				continue
+			}
+			switch {
+			case op == POP || (op >= DUP1 && op <= SWAP16) || op == JUMPI || op == JUMP:
+			case op >= 0x01 && op <= 0x1d: // arithmetic, comparison, bitwise
+			case (op == CALL || op == CALLCODE || op == DELEGATECALL || op == STATICCALL) && k == 0:
+			default:
+				return true
+			}
+		}
+		// DUPn / SWAPn reach below their nominal operands but only move values
+	}
+	return false
 }
 
 func flowOf(evs []Ev) string {
